@@ -206,13 +206,14 @@ PROPS["C13"] = dict(
     prefix="c13_",
     overlays=[("parse", "vk_c13.rs")],
     jobs_quick=5, jobs_thorough=4,
-    bounds="one frame of two chunks (layer with symbolic attributes, user data; contents symbolic) cut at 4 concrete offsets inside "
-           "the chunk payloads; a frame ending in a cel-extra / path chunk cut inside that payload; "
-           "the 128-byte file header cut at 4 offsets (the in-memory reader over the prefix)",
-    outside="cuts inside the frame header or a chunk header of a frame that has chunks (these queries exceed 12 GB: after the failed "
-            "read the rest of parse_frame is explored on a slice of symbolic length) -- argued from the payload and file-header cases: "
-            "every read goes through the same exact-length primitives; files with more chunks / frames; cuts inside a real "
-            "zlib stream (the inflater is not encodable; flate2 reports a truncated stream as an I/O error)",
+    bounds="cut offsets are concrete, contents symbolic (a file cut at c is the in-memory reader over its first c bytes): "
+           "the 128-byte file header at 4 offsets (read_aseprite); the 16-byte frame header at 6 offsets (parse_frame's own reads, the "
+           "chunk list reader stubbed away); one chunk at 4 offsets inside its size, type and payload (Chunk::read); a two-chunk frame at "
+           "4 offsets inside the chunk payloads and a frame ending in a cel-extra / path chunk inside that payload (parse_frame, nothing stubbed)",
+    outside="a symbolic cut offset, and concrete cuts inside the frame header or a chunk header with the REAL continuation of "
+            "parse_frame (these queries exceed 12 GB: after the failed read the rest of parse_frame is explored on a slice of symbolic "
+            "length; --paths lifo did not finish in 30 min) -- the end-to-end statement is the composition of the three units plus "
+            "read_all / read_aseprite forwarding errors with `?`; files with more chunks / frames; cuts inside a real zlib stream",
 )
 
 PROPS["C14"] = dict(
@@ -355,9 +356,10 @@ def _c12_native_findings(dst, tier, seed, ev):
 PROPS["C12"] = dict(
     prefix="c12_",
     post=_c12_native_findings,
-    overlays=[("lib.rs", "vk_c12.rs")],
+    overlays=[("lib.rs", "vk_c12.rs"), ("parse", "vk_c04p.rs")],
     bounds="largest single Vec::with_capacity request (recorded by a stub) for: a raw image cel with declared width x height over all "
-           "of u16 x u16 in a 24-byte chunk; an external-files chunk with entry count over all of u32; a tags chunk with count over all of u16",
+           "of u16 x u16 in a 24-byte chunk; an external-files chunk with entry count over all of u32; a tags chunk with count over all of u16; "
+           "the chunk-list reader with chunk count over all of u32 and byte budget over all of i64",
     outside="PARTIAL: the sum of live allocations (peak heap) is not decided; reservations inside the inflater path "
             "(AseReader::unzip: compressed cels, tilesets, tilemaps) cannot be observed because real inflate is not encodable; "
             "vec![0; n] / resize sites (chunk payload buffer, cel table growth by layer index, frame tables) are bounded by argument "
